@@ -17,10 +17,20 @@ during the step (endpoint + job id).
 
 Independent of the Lean driver, the property statement itself is evaluated on the real trace
 (`Oracle`): a job object causes at most one create request; failure number n of a run of consecutive
-failed status requests is raised iff n >= 5 or it is an HTTP error outside 408/409/421/423/429; after a
-final status was shown no status request is sent and the shown status never changes; results / cancel /
-rerun requests are not sent when the status just read forbids them; the "job failed" error of get_results
-carries the status message of the server answer that said ERROR / CANCELED.
+failed status requests is raised iff n >= 5 or it is an HTTP error outside 408/409/421/423/429 (raised = as that
+very exception: any other exception class on a status failure is a violation too); after a final status was
+shown no status request is sent and the shown status never changes; the status shown / returned (and the is_*
+predicates) after a step is the canonical meaning of the last status string successfully read (or, when nothing
+was read successfully in the step and no local transition happened, the status shown before the step);
+results / cancel / rerun are refused and not sent when the status in force at the guard (just read, or kept
+because the read was absorbed / short-circuited) forbids them; an accepted rerun yields another object with
+another id; the "job failed" error of get_results carries the status message of the server answer that said
+ERROR / CANCELED; no exception class outside the documented ones escapes.
+
+The status body of the scripted server comes in three shapes (third element of an ["s", …] answer): the
+default "started" body (start time, duration, progress 0.5), "q" = the body of a job still queued (no start
+time, no duration, progress 0, no phase) and "z" = falsy numbers / empty phase.  The model is independent of
+these fields (they are not transmitted to it beyond being ignored by the driver).
 """
 from __future__ import annotations
 
@@ -44,8 +54,9 @@ OK = ["ok"]
 CONN = ["c"]
 
 
-def S(s):
-    return ["s", s]
+def S(s, body=None):
+    """a successful status answer; body None = started job, "q" = still queued, "z" = falsy numeric fields"""
+    return ["s", s] if body is None else ["s", s, body]
 
 
 def H(c):
@@ -57,6 +68,17 @@ UNFINISHED = {"waiting", "running", "suspended", "cancel_requested"}
 NOT_CANCELLABLE = {"completed", "error", "canceled", "unknown", "cancel_requested"}
 NOT_FAILED = {"waiting", "running", "suspended", "cancel_requested", "completed", "unknown"}
 FINAL_NAMES = {"SUCCESS", "ERROR", "CANCELED"}
+# the canonical server vocabulary -> the status the job must report (property: "the last status read")
+MEANING = {"waiting": "WAITING", "running": "RUNNING", "completed": "SUCCESS", "error": "ERROR",
+           "canceled": "CANCELED", "suspended": "SUSPENDED", "cancel_requested": "CANCEL_REQUESTED",
+           "unknown": "UNKNOWN"}
+UNFINISHED_NAMES = {"WAITING", "RUNNING", "SUSPENDED", "CANCEL_REQUESTED"}
+CANCELLABLE_NAMES = {"WAITING", "RUNNING", "SUSPENDED"}
+FAILED_NAMES = {"ERROR", "CANCELED"}
+# is_complete, is_failed, is_success, is_waiting, is_running as functions of the reported status
+# (is_running is not judged on CANCEL_REQUESTED: the code counts it as running, the property is silent)
+PREDICATE = {1: lambda n: n in FINAL_NAMES, 2: lambda n: n in FAILED_NAMES, 3: lambda n: n == "SUCCESS",
+             4: lambda n: n == "WAITING", 5: lambda n: n == "RUNNING"}
 
 CANON = ["waiting", "running", "completed", "error", "canceled", "suspended", "cancel_requested", "unknown"]
 ODD = ["bogus", "COMPLETED", "Success", "Running", "CANCELED", "", "cancel requested", "success", "Unknown",
@@ -154,9 +176,7 @@ class World:
             self.served.append(r)
             body = b""
             if r[0] == "s":
-                body = json.dumps({"status": r[1], "progress": 0.5, "progress_message": "phase",
-                                   "status_message": f"m{self.k}", "creation_datetime": 1.0,
-                                   "start_time": 2.0, "duration": 3}).encode()
+                body = json.dumps(status_body(r, self.k)).encode()
             return self._answer(url, r, body)
         if tail.startswith("/api/job/result/"):
             self.calls.append("G" + self._cid(tail[16:]))
@@ -190,6 +210,19 @@ class World:
             return self._answer(url, h, b'{"job_id": "job-%d"}' % self.k)
         self.calls.append("?POST" + tail)
         raise ScriptExhausted("unexpected POST " + tail)
+
+
+def status_body(r, k):
+    """what the scripted server answers to a status request (status_message = position, as in the model)"""
+    shape = r[2] if len(r) > 2 else None
+    if shape == "q":      # a job that never left the queue: nothing started, nothing measured
+        return {"status": r[1], "progress": 0.0, "progress_message": None, "status_message": f"m{k}",
+                "creation_datetime": 1.0, "start_time": None, "duration": None}
+    if shape == "z":      # falsy numbers, empty phase
+        return {"status": r[1], "progress": 0, "progress_message": "", "status_message": f"m{k}",
+                "creation_datetime": 0, "start_time": 0, "duration": 0}
+    return {"status": r[1], "progress": 0.5, "progress_message": "phase", "status_message": f"m{k}",
+            "creation_datetime": 1.0, "start_time": 2.0, "duration": 3}
 
 
 def shown(job):
@@ -244,6 +277,9 @@ class Oracle:
         self.fails = 0
         self.final = None
         self.failmsg = None      # status_message of the server read that said ERROR / CANCELED
+        self.prev = "WAITING" if born_sent else "not sent"   # what str(job) showed after the previous step
+        self.queued_only = True        # every successful read so far had the body of a job still queued
+        self.cancelled_queued = False  # a cancel was accepted while the job had never been seen started
 
 
 def run_history(world: World, ops):
@@ -298,34 +334,52 @@ def run_history(world: World, ops):
                              f"step {k}: create_job called for a job object that was already submitted "
                              f"({orc.creates} earlier submission(s))"))
             orc.creates += nc
-        raised_status = res.startswith("exc:HTTPError") or res == "exc:ConnectionError"
+        sent_before = cid(job) != "N"
+        prev = orc.prev
         last_is_status = bool(calls) and calls[-1][0] == "S"
+        # an exception that ends the step right after a status request and is not one of the guards'
+        # RuntimeErrors came out of the status read itself
+        raised_in_read = last_is_status and res.startswith("exc:") and not res.startswith("exc:RuntimeError")
+        first_outcome = None     # of the first status answer served: "read" / "absorbed" / "raise"
         for i, r in enumerate(served):
             if r[0] == "s":
                 orc.fails = 0
                 tags.add("reset")
                 if r[1].lower() in ("error", "canceled"):
                     orc.failmsg = f"m{k}"
+                if len(r) > 2 and r[2] == "q":
+                    tags.add("queued-body")
+                    if orc.cancelled_queued and orc.queued_only and r[1] == "cancel_requested":
+                        tags.add("cancel-requested-after-queued-cancel")
+                else:
+                    orc.queued_only = False
+                if i == 0:
+                    first_outcome = "read"
                 continue
             orc.fails += 1
             n = orc.fails
             fatal = r[0] == "h" and r[1] not in TRANSIENT
             must_raise = n > MAX_ABSORBED or fatal
+            if i == 0:
+                first_outcome = "raise" if must_raise else "absorbed"
             is_last = i == len(served) - 1
             want = "exc:ConnectionError" if r[0] == "c" else f"exc:HTTPError:{r[1]}"
             did_raise = is_last and last_is_status and res == want
             if must_raise and not did_raise:
                 if fatal and n <= MAX_ABSORBED:
                     hits.append(("fatal-http-absorbed", k,
-                                 f"step {k}: HTTP {r[1]} on the status request was not raised"))
+                                 f"step {k}: HTTP {r[1]} on the status request was not raised as {want[4:]} "
+                                 f"(result {res})"))
                 else:
                     hits.append(("streak-absorbed-after-max", k,
                                  f"step {k}: consecutive failed status request number {n} "
-                                 f"({'connection error' if r[0] == 'c' else 'HTTP %d' % r[1]}) was absorbed "
-                                 f"instead of raised (result {res})"))
-            elif not must_raise and is_last and last_is_status and raised_status:
+                                 f"({'connection error' if r[0] == 'c' else 'HTTP %d' % r[1]}) was not raised as "
+                                 f"{want[4:]} (result {res})"))
+            elif not must_raise and is_last and raised_in_read:
                 hits.append(("transient-not-absorbed", k,
-                             f"step {k}: consecutive transient failure number {n} was raised ({res})"))
+                             f"step {k}: consecutive transient failure number {n} "
+                             f"({'connection error' if r[0] == 'c' else 'HTTP %d' % r[1]}) was not absorbed: the call "
+                             f"raised {res[4:]} instead of going on with the last known status"))
             if must_raise:
                 tags.add("fatal" if fatal and n <= MAX_ABSORBED else
                          ("raised-at-max" if n == MAX_ABSORBED + 1 else "raised-beyond-max"))
@@ -350,6 +404,82 @@ def run_history(world: World, ops):
             if kind == "r" and first[1] in NOT_FAILED and any(c[0] == "R" for c in calls):
                 hits.append(("rerun-not-guarded", k,
                              f"step {k}: rerun request sent although the status just read is {first[1]}"))
+        # -- the status in force when the guard of cancel / rerun / get_results is evaluated: the one just read, or
+        #    the one kept because the read was absorbed, or the final one (no read).  None = not judged (never sent,
+        #    non-canonical string, the read had to raise)
+        eff, how = None, ""
+        if sent_before and kind in ("c", "r", "g"):
+            if orc.final is not None:
+                eff, how = orc.final, "the job already showed the final status"
+            elif first_outcome == "read":
+                eff, how = MEANING.get(first[1]), "the status just read is"
+            elif first_outcome == "absorbed" and prev in MEANING.values():
+                eff, how = prev, "the status request failed (absorbed) and the last known status is"
+                tags.add("guard-on-kept-status")
+        if eff is not None and not hits:
+            if kind == "g" and eff in UNFINISHED_NAMES and \
+                    (res != "exc:RuntimeError:running" or any(c[0] == "G" for c in calls)):
+                hits.append(("results-while-unfinished", k,
+                             f"step {k}: get_results was not refused ({res}; requests {','.join(calls)}) although "
+                             f"{how} {eff}"))
+            if kind == "c" and eff not in CANCELLABLE_NAMES and \
+                    (res != "exc:RuntimeError:nocancel" or any(c[0] == "X" for c in calls)):
+                hits.append(("cancel-not-guarded", k,
+                             f"step {k}: cancel was not refused ({res}; requests {','.join(calls)}) although "
+                             f"{how} {eff}"))
+            if kind == "r" and eff not in FAILED_NAMES and (new_job is not None or any(c[0] == "R" for c in calls)):
+                hits.append(("rerun-not-guarded", k,
+                             f"step {k}: rerun was not refused ({res}; requests {','.join(calls)}) although "
+                             f"{how} {eff}"))
+        if kind == "r" and new_job is not None and sent_before and (new_job is job or new_job.id == job.id):
+            hits.append(("rerun-same-job", k, f"step {k}: rerun returned "
+                         f"{'the same object' if new_job is job else 'a job with the same id ' + str(job.id)}"))
+        # -- the reported status is the last status successfully read (same job object, before a rerun switch)
+        sh_same = shown(job)
+        last_ok = next((r for r in reversed(served) if r[0] == "s"), None)
+        local = kind == "x" or (kind == "c" and res == "ok")     # transitions the client makes by itself
+        if sent_before and orc.final is None and not local:
+            expect = MEANING.get(last_ok[1]) if last_ok is not None else prev
+            if last_ok is None:
+                tags.add("status-kept-checked")
+            elif expect is not None:
+                tags.add("last-read-checked")
+            if expect is not None and sh_same != expect:
+                if last_ok is not None:
+                    hits.append(("status-not-last-read", k,
+                                 f"step {k}: the server answered {last_ok[1]!r} (body: "
+                                 f"{ {None: 'started', 'q': 'queued', 'z': 'zeros'}[last_ok[2] if len(last_ok) > 2 else None]}) "
+                                 f"but the job reports {sh_same}"))
+                else:
+                    hits.append(("status-changed-without-read", k,
+                                 f"step {k}: no status was read successfully and nothing was accepted, but the status "
+                                 f"shown went from {prev} to {sh_same}"))
+        if kind == "p" and sent_before and not res.startswith("exc:"):
+            # what the read returned: the meaning of the answer, or the kept status (absorbed / final)
+            if orc.final is not None:
+                expect = orc.final
+            elif first_outcome == "read":
+                expect = MEANING.get(first[1])
+            elif first_outcome == "absorbed":
+                expect = prev
+            else:
+                expect = None
+            if expect is not None and expect in MEANING.values():
+                v = op[1]
+                if v == 0 and res != "st:" + expect:
+                    hits.append(("status-not-last-read", k,
+                                 f"step {k}: status() returned {res[3:]} but the last status successfully read "
+                                 f"is {expect}"))
+                elif v > 0 and not (v == 5 and expect == "CANCEL_REQUESTED") and \
+                        res != ("flag:1" if PREDICATE[v](expect) else "flag:0"):
+                    hits.append(("predicate-disagrees-with-status", k,
+                                 f"step {k}: {VIEWS[v]} returned {res[5:]} although the last status successfully read "
+                                 f"is {expect}"))
+        # -- no exception class outside the documented ones (a ScriptExhausted is the harness' own: model mismatch)
+        if res.startswith("exc:") and not res.startswith(("exc:HTTPError", "exc:ConnectionError", "exc:RuntimeError",
+                                                          "exc:ScriptExhausted")) \
+                and not (kind == "x" and res == "exc:AssertionError") and not hits:
+            hits.append(("unexpected-exception", k, f"step {k}: the call raised {res[4:]}"))
         # ---------------- coverage tags ----------------
         if len(served) == 2:
             tags.add("second-read")
@@ -361,6 +491,9 @@ def run_history(world: World, ops):
             tags.add("cancel-accepted" if res == "ok" else ("cancel-refused" if "nocancel" in res else "cancel-error"))
             if res == "ok" and calls[-1] == "XN":
                 tags.add("unsent-cancel")
+            if res == "ok" and sent_before and orc.queued_only and first_outcome == "read":
+                orc.cancelled_queued = True
+                tags.add("cancel-while-queued")
         elif kind == "r":
             if new_job is not None:
                 tags.add("rerun-switch" if op[4] else "rerun-accepted")
@@ -383,6 +516,7 @@ def run_history(world: World, ops):
             hits.append(("final-status-changed", k, f"step {k}: status shown went from {orc.final} to {sh}"))
         if sh in FINAL_NAMES:
             orc.final = sh
+        orc.prev = sh
         outs.append(f"{res}|{cid(job)}|{sh}|{','.join(calls)}")
     if world.anomalies:
         hits.append(("handler-glue", 0, world.anomalies[0]))
